@@ -14,3 +14,8 @@ pub type WorkerId = usize;
 
 // Re-export Effect trait for convenience
 pub use quiver_core::effects::Effect;
+
+#[cfg(feature = "verif")]
+pub use environment::verif as environment_verif;
+#[cfg(feature = "verif")]
+pub use worker::verif as worker_verif;
